@@ -50,7 +50,7 @@ var propertyCanaries = map[string][]string{
 	"C02": {"ARGS.order", "ARGS.lencheck", "ARGS.query", "LOOPIDX.unused", "OKFLOW.report", "STRIDE.vecinc"},
 	"C03": {"ARGS.order", "ARGS.lencheck", "ARGS.query", "LOOPIDX.unused", "OKFLOW.report", "STRIDE.workld", "STRIDE.worknext"},
 	"C04": {"STRIDE.contig", "TWIN.bounds", "NILRECV"},
-	"C05": {"OVERLAP.guard", "MODSET.mat"},
+	"C05": {"OVERLAP.guard", "MODSET.mat", "OVERLAP.symmetric", "TWIN.shadow"},
 	"C06": {"OKFLOW.use", "OKFLOW.cond", "OKFLOW.report", "FACT.normorder", "FACT.state", "NILRECV"},
 	"C07": {"ARGS.order", "ARGS.lencheck", "ARGS.query", "MAT.order", "ASM.window", "ASM.tail", "STRIDE.len"},
 	"C08": {"PARAMUSE.read", "ASM.window", "ASM.tail", "ASM.units", "STRIDE.extent", "SIB.guards"},
@@ -91,6 +91,8 @@ func init() {
 		{"OKFLOW.use", "mat/cholesky.go", "_, ok = lapack64.Potrf(sym)\n\tif ok {", "lapack64.Potrf(sym)\n\tif ok {", func() *core.Result { return okflow.Run(def, core.Pkgs("./mat")) }},
 		{"OKFLOW.cond", "mat/lu.go", "if lu.cond > ConditionTolerance {\n\t\treturn Condition(lu.cond)\n\t}\n\treturn nil", "return nil", func() *core.Result { return okflow.Run(def, core.Pkgs("./mat")) }},
 		{"OVERLAP.guard", "mat/dense_arithmetic.go", "if restore == nil {\n\t\t\t\tm.checkOverlap(bU.mat)\n\t\t\t}\n\t\t\tblas64.Gemm(aT, bT, 1, aU.mat, bU.mat, 0, m.mat)", "blas64.Gemm(aT, bT, 1, aU.mat, bU.mat, 0, m.mat)", func() *core.Result { return overlap.Run(def) }},
+		{"OVERLAP.symmetric", "mat/shadow_complex.go", "if rectanglesOverlap(off, a.Cols, b.Cols, min(a.Stride, b.Stride)) {", "if rectanglesOverlap(off, a.Cols, b.Cols, a.Stride) {", func() *core.Result { return overlap.RunSymmetric(def) }},
+		{"TWIN.shadow", "mat/shadow.go", "if off > 0 && len(a.Data) <= off {", "if off > 0 && len(a.Data) < off {", func() *core.Result { return twin.Run(twin.Which{Shadow: true}) }},
 		{"POOL.uaf", "mat/cholesky.go", "v := lapack64.Pocon(sym, norm, work, iwork)\n\tputInts(iwork)", "putInts(iwork)\n\tv := lapack64.Pocon(sym, norm, work, iwork)", func() *core.Result { return pool.Run(def) }},
 		{"MODSET.mat", "mat/dense_arithmetic.go", "a1 := m\n\ta1.Copy(a)", "a1, isD := a.(*Dense)\n\tif !isD {\n\t\ta1 = m\n\t\ta1.Copy(a)\n\t}", func() *core.Result { return modset.Run(core.Config{Tags: "noasm"}) }},
 		{"MAT.order", "mat/dense_arithmetic.go", "\tm.reuseAsNonZeroed(ar, ac)\n\n\tif arm, ok := a.(*Dense); ok {", "\tm.reuseAsNonZeroed(ar, ac)\n\tif ar < 0 {\n\t\tpanic(ErrShape)\n\t}\n\n\tif arm, ok := a.(*Dense); ok {", func() *core.Result { return matargs.Run(def) }},
